@@ -4,6 +4,7 @@ from .. import decsupport as D
 from ..gen import hx
 
 ID = "C01"
+RELEASE_SEARCH = True  # after a correspondence difference: look for an out-of-bounds access in the optimised build
 RULE = (
     "structured/perturbed/noise inputs and all truncations of base packets through every decoding door of the dec family "
     "(14 whole-packet entries, 13 IP boundary implementations, 4 extension-chain walkers, 12 single-layer slices), every accessor, "
